@@ -98,6 +98,10 @@ type lox struct {
 
 	_qla    int
 	_qlasym any
+
+	// _recovering is true from the moment _recover injects ERROR until a
+	// token other than ERROR is shifted.
+	_recovering bool
 }
 
 func (p *{{parser}}) parse(lex _Lexer) bool {
@@ -121,6 +125,9 @@ func (p *{{parser}}) parse(lex _Lexer) bool {
 		if action == accept {
 			break
 		} else if action >= 0 { // shift
+			if p._la != ERROR {
+				p._recovering = false
+			}
 			{{- if emit_bounds }}
 			latok, ok := p._lasym.(Token)
 			if !ok {
@@ -221,49 +228,80 @@ func (p *{{parser}}) _recover() bool {
 		p._readToken()
 	}
 
+	if p._recovering {
+		// The previous recovery was not followed by the shift of a token.
+		// Recovering on the same token again could repeat forever: drop it.
+		if p._la == EOF {
+			return false
+		}
+		p._readToken()
+		for p._la == ERROR {
+			p._readToken()
+		}
+	}
+
 	for {
-		save := p._stack
-
-		for len(p._stack) >= 1 {
-			state := p._stack.Peek(0).State
-
-			for {
-				action, ok := _Find(_actions, state, int32(ERROR))
-				if !ok {
-					break
-				}
-
-				if action < 0 {
-					prod := -action
-					rule := _rules[int(prod)]
-					state, _ = _Find(_goto, state, rule)
-					continue
-				}
-
-				state = action
-
-				_, ok = _Find(_actions, state, int32(p._la))
-				if !ok {
-					break
-				}
-
-				p._qla = p._la
-				p._qlasym = p._lasym
-				p._la = ERROR
-				p._lasym = errSym
-				return true
+		// Look for the topmost state from which ERROR can be shifted into a
+		// state that accepts the lookahead.
+		for depth := len(p._stack); depth >= 1; depth-- {
+			if !p._canShiftError(depth) {
+				continue
 			}
 
-			p._stack.Pop(1)
+			p._stack.Pop(len(p._stack) - depth)
+			p._qla = p._la
+			p._qlasym = p._lasym
+			p._la = ERROR
+			p._lasym = errSym
+			p._recovering = true
+			return true
 		}
 
 		if p._la == EOF {
 			return false
 		}
 
-		p._stack = save
 		p._readToken()
+		for p._la == ERROR {
+			p._readToken()
+		}
 	}
+}
+
+// _canShiftError simulates, on a copy of the bottom 'depth' states of the
+// stack, what the parser would do with ERROR as the lookahead: any number of
+// reductions followed by the shift of ERROR. It reports whether that shift
+// happens and leads to a state that has an action for the real lookahead.
+func (p *{{parser}}) _canShiftError(depth int) bool {
+	const accept = {{ accept }}
+
+	states := make([]int32, depth)
+	for i := range states {
+		states[i] = p._stack[i].State
+	}
+
+	for steps := 0; steps < 10000; steps++ {
+		action, ok := _Find(_actions, states[len(states)-1], int32(ERROR))
+		if !ok || action == accept {
+			return false
+		}
+		if action >= 0 {
+			_, ok = _Find(_actions, action, int32(p._la))
+			return ok
+		}
+		prod := -action
+		termCount := int(_termCounts[int(prod)])
+		if termCount >= len(states) {
+			return false
+		}
+		states = states[:len(states)-termCount]
+		next, ok := _Find(_goto, states[len(states)-1], _rules[int(prod)])
+		if !ok {
+			return false
+		}
+		states = append(states, next)
+	}
+	return false
 }
 
 func (p *{{parser}}) _makeError() Error {
